@@ -85,14 +85,20 @@ Section Stream.
   Hypothesis Hseq : map p_seq (concat fs) = keys_from h (List.length (concat fs)).
   Hypothesis Hshort : N.of_nat (List.length (concat fs)) < 32768.
 
-  Definition dummy : packet := mkPacket 0 0 0 false [].
-  Definition S := concat fs.
-  Definition n := List.length S.
-  Definition pk (i : nat) : packet := nth i S dummy.
+  Definition dummy_packet : packet := mkPacket 0 0 0 false [].
+  Notation dummy := dummy_packet.
+  Definition stream_pkts := concat fs.
+  Notation S := stream_pkts.
+  Definition stream_len := List.length S.
+  Notation n := stream_len.
+  Definition stream_pk (i : nat) : packet := nth i S dummy.
+  Notation pk := stream_pk.
   Notation sq := (sqn h).
   (* position where frame j starts *)
-  Definition blen (j : nat) : nat := List.length (concat (firstn j fs)).
-  Definition frame (j : nat) : list packet := nth j fs [].
+  Definition frame_start (j : nat) : nat := List.length (concat (firstn j fs)).
+  Notation blen := frame_start.
+  Definition frame_at (j : nat) : list packet := nth j fs [].
+  Notation frame := frame_at.
 
   Lemma pk_seq : forall i, (i < n)%nat -> p_seq (pk i) = sq i.
   Proof.
@@ -301,10 +307,11 @@ Section Inorder.
   Local Strategy opaque [SampleBuilder.buildSample SampleBuilder.purge_body].
 
   Notation sq := (sqn h).
-  Notation n := (n fs).
-  Notation pk := (pk fs).
-  Notation blen := (blen fs).
-  Notation frame := (frame fs).
+  Notation n := (stream_len fs).
+  Notation pk := (stream_pk fs).
+  Notation blen := (frame_start fs).
+  Notation frame := (frame_at fs).
+  Notation dummy := dummy_packet.
   Notation m := (List.length fs).
 
   Lemma n_short : N.of_nat n < 32768.
